@@ -150,34 +150,35 @@ func (m *MonC11) AfterBlock(w *World, b *BlockCtx) {
 				diffs = append(diffs, d)
 			}
 		}
-		if len(diffs) > 0 && f.blocks <= 120 {
-			// a chain started from a genesis is in its start-up grace period for 120 blocks: absent
-			// validators are switched off but not jailed. Not transaction behaviour; stop following.
-			only := true
+		if len(diffs) > 0 {
+			// two explained ways in which a fork may leave the original, alone or together:
+			// (a) a chain started from a genesis is in its start-up grace period for 120 blocks: absent
+			//     validators are switched off but not jailed (not transaction behaviour);
+			// (b) listed known finding: only the validators' share of a withheld block reward is exported,
+			//     the fork mints less into the zero address
+			var rest, wh []Delta
+			grace := false
 			for _, d := range diffs {
-				if !strings.HasSuffix(d.Path, "/jailed") {
-					only = false
+				switch {
+				case f.blocks <= 120 && strings.HasSuffix(d.Path, "/jailed"):
+					grace = true
+				case f.withheld && d.Path == "bal/"+(types.Address{}).String()+"/0":
+					wh = append(wh, d)
+				default:
+					rest = append(rest, d)
 				}
 			}
-			if only {
-				w.Probe("c11_fork_left_at_grace_period_jail")
-				f.t.Node.Release()
-				continue
-			}
-		}
-		if len(diffs) > 0 && f.withheld {
-			only := true
-			for _, d := range diffs {
-				if d.Path != "bal/"+(types.Address{}).String()+"/0" {
-					only = false
+			if len(rest) == 0 {
+				if len(wh) > 0 {
+					if !w.ReportKnownable("C11", "round-trip", "withheld-reward-level-not-exported", fmt.Sprintf("block %d after the export of height %d: the genesis format carries only the validators' share of the block reward; a chain exported while part of the minted reward is withheld (after a price drop) mints only that share: zero-address balance %s", b.Height, f.from, fmtDeltas(wh, 2)), b.Height) {
+						return
+					}
 				}
-			}
-			if only {
-				if !w.ReportKnownable("C11", "round-trip", "withheld-reward-level-not-exported", fmt.Sprintf("block %d after the export of height %d: the genesis format carries only the validators' share of the block reward; a chain exported while part of the minted reward is withheld (after a price drop) mints only that share: zero-address balance %s", b.Height, f.from, fmtDeltas(diffs, 2)), b.Height) {
-					return
+				if grace {
+					w.Probe("c11_fork_left_at_grace_period_jail")
 				}
 				f.t.Node.Release()
-				continue // this fork has diverged in the known way: stop following it
+				continue // this fork has diverged in an explained way: stop following it
 			}
 		}
 		if len(diffs) > 0 {
